@@ -178,34 +178,12 @@ def _wrap_word(rng, thumb, rn, rm):
 VALID_PSR_MASK = 0xF80F01C0
 
 
-def run_predecessor(pre):
-    """the life of the predecessor instance (see gen_bank): a 'dump all banks' of all 32 mode numbers, writes in the modes legal for ITS configuration"""
-    arm = M.new_arm({'config': pre['config'], 'devices': [], 'regs': {}})
-    r = arm.registers
-    cfg = M.full_config(pre['config'])
-    legal = set(BK.legal_modes(cfg['have_security_ext'], cfg['have_virt_ext']))
-    rng = random.Random(pre['seed'])
-    for mode in [0x10, 0x11, 0x12, 0x13, 0x16, 0x17, 0x1a, 0x1b, 0x1f] + [rng.randrange(32) for _ in range(4)]:
-        for n in range(15):
-            try:
-                r.get_rmode(n, mode)                       # reading is harmless even for a mode this configuration lacks (at worst UNKNOWN data)
-                if mode in legal and (mode != 0x16 or not r.scr.value & 1):
-                    r.set_rmode(n, mode, rng.getrandbits(32))
-            except Exception:
-                pass                                       # (a host error here is C18's subject and is found there)
-    for mode in legal:
-        r.cpsr.value = (r.cpsr.value & ~0x1F) | mode
-        for n in range(15):
-            r.set(n, r.get(n) ^ 0xFFFF)
-        if mode not in (0x10, 0x1f):
-            r.set_spsr(r.get_spsr())
+run_predecessor = M.run_predecessor
 
 
 class Walk:
     def __init__(self, case):
-        if case.get('predecessor'):
-            run_predecessor(case['predecessor'])
-        self.case = dict(case, cores=[dict(case['cores'][0], words=[])])
+        self.case = dict(case, cores=[dict(case['cores'][0], words=[])])           # (a 'predecessor' of the case is run by the board before it builds the instance)
         self.b = StreamBoard(self.case, [])
         self.arm = self.b.cores[0].arm
         self.r = self.arm.registers
